@@ -450,4 +450,125 @@ theorem serializeCoverage_get {gs : List Nat} (hne : gs ≠ []) (hs : gs.Pairwis
       simp only [CovW.toCoverage, List.take_length]
       rw [get_fmt2 wf (fun r hr => hb _ (en r hr)) g, ex]
 
+/-! ## positions in filtered lists -/
+
+/-- the position of a retained element in the filtered list is the number of retained elements
+before it -/
+theorem indexIn_filter (q : Nat → Bool) : ∀ (ys : List Nat) (g i : Nat), indexIn g ys = some i →
+    q g = true → indexIn g (ys.filter q) = some ((ys.take i).countP q) := by
+  intro ys
+  induction ys with
+  | nil => intro g i h; simp [indexIn] at h
+  | cons x xs ih =>
+    intro g i h hq
+    simp only [indexIn] at h
+    by_cases e : x = g
+    · subst e
+      simp only [↓reduceIte, Option.some.injEq] at h
+      subst h
+      simp [List.filter, hq, indexIn]
+    · simp only [e, ↓reduceIte, Option.map_eq_some_iff] at h
+      obtain ⟨j, hj, rfl⟩ := h
+      have := ih g j hj hq
+      by_cases hx : q x = true
+      · simp [List.filter, hx, indexIn, e, this]
+      · simp [List.filter, hx, this]
+
+theorem indexIn_filter_none (q : Nat → Bool) (ys : List Nat) (g : Nat) (h : indexIn g ys = none) :
+    indexIn g (ys.filter q) = none := by
+  apply indexIn_none
+  intro hm
+  have : g ∈ ys := (List.mem_filter.mp hm).1
+  induction ys with
+  | nil => simp at this
+  | cons x xs ih =>
+    simp only [indexIn] at h
+    by_cases e : x = g
+    · simp [e] at h
+    · simp only [e, ↓reduceIte, Option.map_eq_none_iff] at h
+      rcases List.mem_cons.mp this with e' | hm'
+      · exact e e'.symm
+      · exact ih h (List.mem_filter.mpr ⟨hm', (List.mem_filter.mp hm).2⟩) hm'
+
+/-- `filterMap` by a partial function that is injective at `n`: positions agree with the plain filter -/
+theorem indexIn_filterMap (f : Nat → Option Nat) (g n : Nat) (hf : f g = some n) :
+    ∀ (ys : List Nat), (∀ a ∈ ys, f a = some n → a = g) →
+    indexIn n (ys.filterMap f) = indexIn g (ys.filter (fun a => (f a).isSome)) := by
+  intro ys
+  induction ys with
+  | nil => intro _; rfl
+  | cons x xs ih =>
+    intro hinj
+    have ih' := ih (fun a ha => hinj a (List.mem_cons_of_mem _ ha))
+    cases hx : f x with
+    | none => simp [hx, List.filter, ih']
+    | some m =>
+      simp only [List.filterMap_cons, hx, List.filter, Option.isSome_some, indexIn]
+      by_cases e : m = n
+      · subst e
+        have := hinj x (List.mem_cons_self ..) hx
+        simp [this]
+      · have : ¬ x = g := by
+          intro e'; subst e'; rw [hf] at hx; injection hx with hx; exact e hx.symm
+        simp [e, this, ih']
+
+/-- **parallel arrays stay aligned**: an array indexed by coverage index, restricted by the same
+filter as the coverage glyphs, holds at the new position of a retained glyph what the original held
+at its old position -/
+theorem aligned {α : Type} (q : Nat → Bool) : ∀ (ys : List Nat) (arr : List α) (g i : Nat),
+    indexIn g ys = some i → q g = true →
+    ((ys.zip arr).filterMap (fun x => if q x.1 then some x.2 else none))[(ys.take i).countP q]? = arr[i]? := by
+  intro ys
+  induction ys with
+  | nil => intro arr g i h; simp [indexIn] at h
+  | cons x xs ih =>
+    intro arr g i h hq
+    cases arr with
+    | nil => simp
+    | cons a as =>
+      simp only [indexIn] at h
+      by_cases e : x = g
+      · subst e
+        simp only [↓reduceIte, Option.some.injEq] at h
+        subst h
+        simp [hq]
+      · simp only [e, ↓reduceIte, Option.map_eq_some_iff] at h
+        obtain ⟨j, hj, rfl⟩ := h
+        have := ih as g j hj hq
+        by_cases hx : q x = true
+        · simp [hx, this]
+        · simp [hx, this]
+
+/-- positions in a filtered list keep the order of the positions in the original list -/
+theorem countP_take_lt (q : Nat → Bool) (ys : List Nat) {i1 i2 : Nat} {g1 : Nat}
+    (h1 : ys[i1]? = some g1) (hq : q g1 = true) (hlt : i1 < i2) :
+    (ys.take i1).countP q < (ys.take i2).countP q := by
+  have hi1 : i1 < ys.length := (List.getElem?_eq_some_iff.mp h1).1
+  have : ys.take i2 = ys.take i1 ++ (ys.drop i1).take (i2 - i1) := by
+    rw [← List.take_add]
+    congr 1; omega
+  rw [this, List.countP_append]
+  have hd : (ys.drop i1).take (i2 - i1) = g1 :: ((ys.drop (i1 + 1)).take (i2 - i1 - 1)) := by
+    have e1 : ys.drop i1 = ys[i1] :: ys.drop (i1 + 1) := (List.drop_eq_getElem_cons hi1)
+    have e2 : ys[i1] = g1 := by
+      have := List.getElem?_eq_getElem hi1; rw [this] at h1; injection h1
+    rw [e1, e2]
+    obtain ⟨k, hk⟩ : ∃ k, i2 - i1 = k + 1 := ⟨i2 - i1 - 1, by omega⟩
+    rw [hk, List.take_succ_cons]
+    simp
+  rw [hd, List.countP_cons]
+  simp [hq]
+
+theorem indexIn_getElem? {g i : Nat} {xs : List Nat} (h : indexIn g xs = some i) : xs[i]? = some g := by
+  induction xs generalizing i with
+  | nil => simp [indexIn] at h
+  | cons x t ih =>
+    simp only [indexIn] at h
+    by_cases e : x = g
+    · simp only [e, ↓reduceIte, Option.some.injEq] at h
+      subst h; simp [e]
+    · simp only [e, ↓reduceIte, Option.map_eq_some_iff] at h
+      obtain ⟨j, hj, rfl⟩ := h
+      simp [ih hj]
+
 end FontVerif.SubsetLayout
